@@ -3,7 +3,8 @@
       "ID ok Y M D DN WDAY OUTHEX" | "ID err CLASS"
    EXTRA = the --input-date-format arguments in command-line order; (CY,CM,CD) = CURRENT_DATE();
    OUTHEX = format_date(date, OUTFMT) ("?" when the model does not cover OUTFMT);
-   WDAY = weekday of the era-based day number (0 = Sunday), independent of boost's formula. *)
+   WDAY = weekday of the era-based day number (0 = Sunday), independent of boost's formula.
+   (e ID CY CM CD (EVENT ...)) -> "ID y,m,d;y,m,d;..." the current date at each q event. *)
 let err_name = function
   | DInvalid -> "Invalid" | DBadYear -> "BadYear" | DBadMonth -> "BadMonth"
   | DBadDayRange -> "BadDayRange" | DBadDay -> "BadDay" | DUnsupported -> "Unsupported"
@@ -26,6 +27,13 @@ let handle line =
     (* format a given civil date *)
     let dn = boost_day_number (zatom y) (zatom m) (zatom d) in
     [id ^ " " ^ (match format_date (hexs ofmt) dn with Some r -> (match hex_of_str r with "" -> "-" | h -> h) | None -> "?")]
+  | L [A "e"; A id; cy; cm; cd; L evs] ->
+    (* the current date at every transaction: events (y N) | end | q *)
+    let ev = List.map (function
+        | L [A "y"; n] -> JYear (zatom n) | A "end" -> JEnd | A "q" -> JQuery | _ -> failwith "event") evs in
+    let st = { es_cur = ((zatom cy, zatom cm), zatom cd); es_stack = [] } in
+    [id ^ " " ^ String.concat ";" (List.map (fun ((y, m), d) ->
+         Printf.sprintf "%s,%s,%s" (string_of_z y) (string_of_z m) (string_of_z d)) (run_events st ev))]
   | _ -> failwith "case"
 
 let () = main_loop handle
